@@ -3,8 +3,8 @@ import ScenicModel.Lemmas.Support
 /-!
 # C05 (part 2): the static bounds reported for a random value contain every value it can take
 
-`support F ivs e` is `supportInterval` of the distribution forest abstracted as `e` (`Model/Support.lean`), with the
-per-operator formulas `F` regenerated from `OperatorDistribution.supportInterval`.  `Sem leafSem e v` says that `v`
+`support F hyp ivs e` is `supportInterval` of the distribution forest abstracted as `e` (`Model/Support.lean`), with the
+per-operator formulas `F` regenerated from `OperatorDistribution.supportInterval`.  `Sem hyp leafSem e v` says that `v`
 is a value the forest can take.  `support_sound`: whenever bounds are reported, every possible value lies inside.
 -/
 namespace Scenic.Support
@@ -12,30 +12,40 @@ open Scenic.Expr
 
 mutual
   /-- the values a distribution forest can take (numbers as exact rationals) -/
-  def Sem (leafSem : Nat → Rat → Prop) : SExpr → Rat → Prop
+  def Sem (hyp : List Rat → Rat) (leafSem : Nat → Rat → Prop) : SExpr → Rat → Prop
     | .const q => fun v => v = q
     | .opaque => fun _ => True
     | .leaf i => fun v => leafSem i v
     | .bin op refl obj arg => fun v =>
-      ∃ x y, Sem leafSem obj x ∧ Sem leafSem arg y ∧ numBin op (if refl then y else x) (if refl then x else y) = some v
-    | .un op obj => fun v => ∃ x, Sem leafSem obj x ∧ v = numUn op x
-    | .range lo hi => fun v => ∃ a b, Sem leafSem lo a ∧ Sem leafSem hi b ∧ rmin a b ≤ v ∧ v ≤ rmax a b
-    | .drange lo hi => fun v => ∃ a b, Sem leafSem lo a ∧ Sem leafSem hi b ∧ a ≤ v ∧ v ≤ b
-    | .mux opts => fun v => SemAny leafSem opts v
-    | .mono f args => fun v => ∃ vs, SemAll leafSem args vs ∧ monoApply f vs = some v
+      ∃ x y, Sem hyp leafSem obj x ∧ Sem hyp leafSem arg y ∧ numBin op (if refl then y else x) (if refl then x else y) = some v
+    | .un op obj => fun v => ∃ x, Sem hyp leafSem obj x ∧ v = numUn op x
+    | .range lo hi => fun v => ∃ a b, Sem hyp leafSem lo a ∧ Sem hyp leafSem hi b ∧ rmin a b ≤ v ∧ v ≤ rmax a b
+    | .drange lo hi => fun v => ∃ a b, Sem hyp leafSem lo a ∧ Sem hyp leafSem hi b ∧ a ≤ v ∧ v ≤ b
+    | .mux opts => fun v => SemAny hyp leafSem opts v
+    | .mono f args => fun v => ∃ vs, SemAll hyp leafSem args vs ∧ monoApply f vs = some v
+    | .hypot args => fun v => ∃ vs, SemAll hyp leafSem args vs ∧ v = hyp vs
     | .truncnormal lo hi => fun v => lo ≤ v ∧ v ≤ hi
-  def SemAny (leafSem : Nat → Rat → Prop) : List SExpr → Rat → Prop
+  def SemAny (hyp : List Rat → Rat) (leafSem : Nat → Rat → Prop) : List SExpr → Rat → Prop
     | [] => fun _ => False
-    | e :: rest => fun v => Sem leafSem e v ∨ SemAny leafSem rest v
-  def SemAll (leafSem : Nat → Rat → Prop) : List SExpr → List Rat → Prop
+    | e :: rest => fun v => Sem hyp leafSem e v ∨ SemAny hyp leafSem rest v
+  def SemAll (hyp : List Rat → Rat) (leafSem : Nat → Rat → Prop) : List SExpr → List Rat → Prop
     | [] => fun vs => vs = []
-    | e :: rest => fun vs => ∃ v vs', vs = v :: vs' ∧ Sem leafSem e v ∧ SemAll leafSem rest vs'
+    | e :: rest => fun vs => ∃ v vs', vs = v :: vs' ∧ Sem hyp leafSem e v ∧ SemAll hyp leafSem rest vs'
 end
 
 def withinAll : List Supp → List Rat → Prop
   | [], [] => True
   | s :: ss, v :: vs => within s v ∧ withinAll ss vs
   | _, _ => False
+
+theorem withinAll_forall₂ : ∀ (ss : List Supp) (vs : List Rat), withinAll ss vs →
+    List.Forall₂ (fun s v => within s v) ss vs
+  | [], [], _ => List.Forall₂.nil
+  | [], _ :: _, h => by simp [withinAll] at h
+  | _ :: _, [], h => by simp [withinAll] at h
+  | s :: ss, v :: vs, h => by
+    simp only [withinAll] at h
+    exact List.Forall₂.cons h.1 (withinAll_forall₂ ss vs h.2)
 
 theorem lowers_le (ss : List Supp) : ∀ (vs qs : List Rat), withinAll ss vs → allSome (ss.map (·.1)) = some qs →
     List.Forall₂ (· ≤ ·) qs vs := by
@@ -102,9 +112,9 @@ mutual
   /-- **C05, support soundness.**  If `supportInterval` reports bounds for a forest, every value the forest can
       take lies within them (for sound formulas `F`, a dispatch table that pairs each operator with its own formula,
       and leaves whose values respect their own bounds). -/
-  theorem support_sound (F : Formulas) (hF : F.Sound) (hT : F.tableOK = true) (ivs : Nat → Supp)
+  theorem support_sound (F : Formulas) (hF : F.Sound) (hT : F.tableOK = true) (hyp : List Rat → Rat) (hH : HypMono hyp) (ivs : Nat → Supp)
       (leafSem : Nat → Rat → Prop) (hleaf : ∀ i v, leafSem i v → within (ivs i) v) :
-      ∀ (e : SExpr) (s : Supp) (v : Rat), support F ivs e = some s → Sem leafSem e v → within s v
+      ∀ (e : SExpr) (s : Supp) (v : Rat), support F hyp ivs e = some s → Sem hyp leafSem e v → within s v
     | .const q, s, v, hs, hv => by
       simp only [support, Option.some.injEq] at hs; subst hs
       simp only [Sem] at hv; subst hv
@@ -128,15 +138,15 @@ mutual
       | none => simp [hf] at hs; subst hs; exact within_none v
       | some f =>
         simp only [hf] at hs
-        cases h1 : support F ivs obj with
+        cases h1 : support F hyp ivs obj with
         | none => simp [h1] at hs
         | some s1 =>
-          cases h2 : support F ivs arg with
+          cases h2 : support F hyp ivs arg with
           | none => simp [h1, h2] at hs
           | some s2 =>
             simp only [h1, h2, Option.bind_some] at hs
-            have w1 := support_sound F hF hT ivs leafSem hleaf obj s1 x h1 hx
-            have w2 := support_sound F hF hT ivs leafSem hleaf arg s2 y h2 hy
+            have w1 := support_sound F hF hT hyp hH ivs leafSem hleaf obj s1 x h1 hx
+            have w2 := support_sound F hF hT hyp hH ivs leafSem hleaf arg s2 y h2 hy
             obtain ⟨a1, b1⟩ := s1
             obtain ⟨a2, b2⟩ := s2
             cases a1 <;> cases b1 <;> cases a2 <;> cases b2 <;> simp at hs <;> subst hs <;>
@@ -151,11 +161,11 @@ mutual
       | none => simp [hf] at hs; subst hs; exact within_none _
       | some f =>
         simp only [hf] at hs
-        cases h1 : support F ivs obj with
+        cases h1 : support F hyp ivs obj with
         | none => simp [h1] at hs
         | some s1 =>
           simp only [h1, Option.bind_some] at hs
-          have w1 := support_sound F hF hT ivs leafSem hleaf obj s1 x h1 hx
+          have w1 := support_sound F hF hT hyp hH ivs leafSem hleaf obj s1 x h1 hx
           obtain ⟨a1, b1⟩ := s1
           cases a1 <;> cases b1 <;> simp at hs
           subst hs
@@ -168,16 +178,16 @@ mutual
       simp only [support] at hs
       simp only [Sem] at hv
       obtain ⟨a, b, ha, hb, hl, hu⟩ := hv
-      cases h1 : support F ivs lo with
+      cases h1 : support F hyp ivs lo with
       | none => simp [h1] at hs
       | some s1 =>
-        cases h2 : support F ivs hi with
+        cases h2 : support F hyp ivs hi with
         | none => simp [h1, h2] at hs
         | some s2 =>
           simp only [h1, h2, Option.bind_some, Option.some.injEq] at hs
           subst hs
-          have w1 := support_sound F hF hT ivs leafSem hleaf lo s1 a h1 ha
-          have w2 := support_sound F hF hT ivs leafSem hleaf hi s2 b h2 hb
+          have w1 := support_sound F hF hT hyp hH ivs leafSem hleaf lo s1 a h1 ha
+          have w2 := support_sound F hF hT hyp hH ivs leafSem hleaf hi s2 b h2 hb
           obtain ⟨a1, b1⟩ := s1
           obtain ⟨a2, b2⟩ := s2
           unfold unionOfSupports
@@ -194,37 +204,37 @@ mutual
       simp only [support] at hs
       simp only [Sem] at hv
       obtain ⟨a, b, ha, hb, hl, hu⟩ := hv
-      cases h1 : support F ivs lo with
+      cases h1 : support F hyp ivs lo with
       | none => simp [h1] at hs
       | some s1 =>
-        cases h2 : support F ivs hi with
+        cases h2 : support F hyp ivs hi with
         | none => simp [h1, h2] at hs
         | some s2 =>
           simp only [h1, h2, Option.bind_some, Option.some.injEq] at hs
           subst hs
-          have w1 := support_sound F hF hT ivs leafSem hleaf lo s1 a h1 ha
-          have w2 := support_sound F hF hT ivs leafSem hleaf hi s2 b h2 hb
+          have w1 := support_sound F hF hT hyp hH ivs leafSem hleaf lo s1 a h1 ha
+          have w2 := support_sound F hF hT hyp hH ivs leafSem hleaf hi s2 b h2 hb
           constructor
           · intro L hL; exact le_trans (w1.1 L hL) hl
           · intro H hH; exact le_trans hu (w2.2 H hH)
     | .mux opts, s, v, hs, hv => by
       simp only [support] at hs
       simp only [Sem] at hv
-      cases h1 : supportList F ivs opts with
+      cases h1 : supportList F hyp ivs opts with
       | none => simp [h1] at hs
       | some ss =>
         simp [h1] at hs; subst hs
-        obtain ⟨s', hmem, hw⟩ := support_any F hF hT ivs leafSem hleaf opts ss v h1 hv
+        obtain ⟨s', hmem, hw⟩ := support_any F hF hT hyp hH ivs leafSem hleaf opts ss v h1 hv
         exact within_union ss s' hmem v hw
     | .mono f args, s, v, hs, hv => by
       simp only [support] at hs
       simp only [Sem] at hv
       obtain ⟨vs, hall, hval⟩ := hv
-      cases h1 : supportList F ivs args with
+      cases h1 : supportList F hyp ivs args with
       | none => simp [h1] at hs
       | some ss =>
         simp only [h1, Option.bind_some] at hs
-        have hw := support_all F hF hT ivs leafSem hleaf args ss vs h1 hall
+        have hw := support_all F hF hT hyp hH ivs leafSem hleaf args ss vs h1 hall
         cases hl : monoBound f (ss.map (·.1)) with
         | none => simp [hl] at hs
         | some lo' =>
@@ -241,28 +251,51 @@ mutual
               simp only at hH; subst hH
               obtain ⟨qs, hq, hm⟩ := monoBound_some f _ H hh
               exact monoApply_mono f vs qs (uppers_ge ss vs qs hw hq) _ _ hval hm
-  theorem support_any (F : Formulas) (hF : F.Sound) (hT : F.tableOK = true) (ivs : Nat → Supp)
+    | .hypot args, s, v, hs, hv => by
+      simp only [support] at hs
+      simp only [Sem] at hv
+      obtain ⟨vs, hall, rfl⟩ := hv
+      cases h1 : supportList F hyp ivs args with
+      | none => simp [h1] at hs
+      | some ss =>
+        simp only [h1, Option.map_some, Option.some.injEq] at hs
+        subst hs
+        have hw := withinAll_forall₂ ss vs (support_all F hF hT hyp hH ivs leafSem hleaf args ss vs h1 hall)
+        unfold hypSupport
+        cases hb : hypBounds F ss with
+        | none => exact within_none _
+        | some p =>
+          obtain ⟨ls, hs'⟩ := p
+          obtain ⟨hlo, hhi⟩ := hypBounds_sound F hF ss vs ls hs' hw hb
+          constructor
+          · intro L hL
+            simp only [Option.some.injEq] at hL; subst hL
+            exact hH ls vs hlo
+          · intro H hH'
+            simp only [Option.some.injEq] at hH'; subst hH'
+            exact hH vs hs' hhi
+  theorem support_any (F : Formulas) (hF : F.Sound) (hT : F.tableOK = true) (hyp : List Rat → Rat) (hH : HypMono hyp) (ivs : Nat → Supp)
       (leafSem : Nat → Rat → Prop) (hleaf : ∀ i v, leafSem i v → within (ivs i) v) :
-      ∀ (es : List SExpr) (ss : List Supp) (v : Rat), supportList F ivs es = some ss → SemAny leafSem es v →
+      ∀ (es : List SExpr) (ss : List Supp) (v : Rat), supportList F hyp ivs es = some ss → SemAny hyp leafSem es v →
         ∃ s ∈ ss, within s v
     | [], ss, v, _, hv => by simp [SemAny] at hv
     | e :: rest, ss, v, hs, hv => by
       simp only [supportList] at hs
-      cases h1 : support F ivs e with
+      cases h1 : support F hyp ivs e with
       | none => simp [h1] at hs
       | some s1 =>
-        cases h2 : supportList F ivs rest with
+        cases h2 : supportList F hyp ivs rest with
         | none => simp [h1, h2] at hs
         | some ss' =>
           simp [h1, h2] at hs; subst hs
           simp only [SemAny] at hv
           rcases hv with hv | hv
-          · exact ⟨s1, List.mem_cons_self, support_sound F hF hT ivs leafSem hleaf e s1 v h1 hv⟩
-          · obtain ⟨s', hm, hw⟩ := support_any F hF hT ivs leafSem hleaf rest ss' v h2 hv
+          · exact ⟨s1, List.mem_cons_self, support_sound F hF hT hyp hH ivs leafSem hleaf e s1 v h1 hv⟩
+          · obtain ⟨s', hm, hw⟩ := support_any F hF hT hyp hH ivs leafSem hleaf rest ss' v h2 hv
             exact ⟨s', List.mem_cons_of_mem _ hm, hw⟩
-  theorem support_all (F : Formulas) (hF : F.Sound) (hT : F.tableOK = true) (ivs : Nat → Supp)
+  theorem support_all (F : Formulas) (hF : F.Sound) (hT : F.tableOK = true) (hyp : List Rat → Rat) (hH : HypMono hyp) (ivs : Nat → Supp)
       (leafSem : Nat → Rat → Prop) (hleaf : ∀ i v, leafSem i v → within (ivs i) v) :
-      ∀ (es : List SExpr) (ss : List Supp) (vs : List Rat), supportList F ivs es = some ss → SemAll leafSem es vs →
+      ∀ (es : List SExpr) (ss : List Supp) (vs : List Rat), supportList F hyp ivs es = some ss → SemAll hyp leafSem es vs →
         withinAll ss vs
     | [], ss, vs, hs, hv => by
       simp only [supportList, Option.some.injEq] at hs; subst hs
@@ -270,46 +303,37 @@ mutual
       trivial
     | e :: rest, ss, vs, hs, hv => by
       simp only [supportList] at hs
-      cases h1 : support F ivs e with
+      cases h1 : support F hyp ivs e with
       | none => simp [h1] at hs
       | some s1 =>
-        cases h2 : supportList F ivs rest with
+        cases h2 : supportList F hyp ivs rest with
         | none => simp [h1, h2] at hs
         | some ss' =>
           simp [h1, h2] at hs; subst hs
           simp only [SemAll] at hv
           obtain ⟨v, vs', rfl, hv1, hv2⟩ := hv
-          exact ⟨support_sound F hF hT ivs leafSem hleaf e s1 v h1 hv1,
-            support_all F hF hT ivs leafSem hleaf rest ss' vs' h2 hv2⟩
+          exact ⟨support_sound F hF hT hyp hH ivs leafSem hleaf e s1 v h1 hv1,
+            support_all F hF hT hyp hH ivs leafSem hleaf rest ss' vs' h2 hv2⟩
 end
 
-/-! ## `hypot` is not monotone -/
+/-! ## `hypot` is not monotone in its arguments, only in their absolute values -/
 
 /-- the squared `hypot` of one coordinate: `hypot(x)² = x²` -/
 def hypotSq (xs : List Rat) : Rat := (xs.map fun x => x * x).sum
 
-/-- declaring `hypot` monotone is unsound: with bounds `[-3, 1]` the "monotone" support is `[hypot(-3), hypot(1)] = [3, 1]`,
-    but `0 ∈ [-3, 1]` and `hypot(0) = 0` lies below the reported lower bound (squares compared, `sqrt` being monotone). -/
+/-- `hypot` is not monotone: `-3 ≤ 0` but `hypot(-3) = 3 > 0 = hypot(0)` (squares compared, `sqrt` being monotone);
+    this is why `geometry.hypot` must not be declared a `monotonicDistributionFunction` (57b1c90f) -/
 theorem hypot_not_monotone : ¬ ∀ x y : Rat, x ≤ y → hypotSq [x] ≤ hypotSq [y] := by
   intro h
   have := h (-3) 0 (by norm_num)
   norm_num [hypotSq] at this
 
-/-- the repaired support of `hypot` (proposed fix): bounds of `|x|` are `absBounds l r`, and `hypot` is monotone in `|x|` -/
-def absBounds (l r : Rat) : Rat × Rat :=
-  if r < 0 then (-r, -l) else if l < 0 then (0, rmax (-l) r) else (l, r)
-
-theorem absBounds_sound (l r x : Rat) (h1 : l ≤ x) (h2 : x ≤ r) :
-    (absBounds l r).1 * (absBounds l r).1 ≤ x * x ∧ x * x ≤ (absBounds l r).2 * (absBounds l r).2 := by
-  unfold absBounds
-  split
-  · constructor <;> nlinarith
-  · split
-    · constructor
-      · nlinarith
-      · have := le_rmax_left (-l) r
-        have := le_rmax_right (-l) r
-        rcases le_total 0 x with hx | hx <;> nlinarith
-    · constructor <;> nlinarith
+/-- the data extracted from code that declares `hypot` monotone (`hypAbs` = identity) does not satisfy the side
+    condition `Formulas.Sound.hypAbs`: reverting 57b1c90f makes `gen_formulas_sound` fail -/
+theorem identity_hypAbs_unsound :
+    ¬ ∀ l r x : Rat, l ≤ x → x ≤ r → 0 ≤ l ∧ l ≤ absR x ∧ absR x ≤ r := by
+  intro h
+  have := (h (-3) 1 0 (by norm_num) (by norm_num)).1
+  norm_num at this
 
 end Scenic.Support
